@@ -64,6 +64,27 @@ class Ctx:
     def deps(self, body, control=False):
         return Deps(self.an(body), control)
 
+    def dep(self, pkg, rule=None):
+        """a context over the facts of dependency crate `pkg` as resolved for the analysed tree; obligations, findings
+        and evidence are shared with this context.  Fails closed when the dependency cannot be analysed."""
+        cache = self.__dict__.setdefault('_deps', {})
+        if pkg in cache:
+            return cache[pkg]
+        try:
+            path, info = extract.extract_dep(pkg)
+            F = Facts(path, normalise=False)
+        except Exception as e:
+            self.fail(rule or self.cur_rule or 'anchor', 'anchor|dependency %s' % pkg, '-', 'dependency %s cannot be analysed (%s): cannot decide (fail closed)' % (pkg, str(e)[:300]))
+            raise AnchorMissing(pkg)
+        sub = Ctx(self.prop, self.tier, F, self.config)
+        for attr in ('findings', 'obligations', 'samples', 'notes', 'functions', 'rules_run'):
+            setattr(sub, attr, getattr(self, attr))
+        sub.cur_rule = self.cur_rule
+        sub.dep_info = info
+        self.note('dependency %s %s analysed from %s (%d bodies)' % (pkg, info['version'], info['src'], F.n_bodies))
+        cache[pkg] = sub
+        return sub
+
     # ------------------------------------------------------- bookkeeping
     def ok(self, rule, key, loc, note=None):
         self.obligations.append((rule, key, True, loc, note))
